@@ -1,6 +1,9 @@
 SPECIFICATION GSpec
 CONSTANTS
-  StopRule = "minusDelay"
-  ChunkRule = "code"
+  StopRule = "plusDelay"
+  ChunkRule = "delayAware"
+  ReduceRule = "loop"
+  KeyRule = "fallback"
+  AssignRule = "strict"
   SeedSpace <- SeedsQuick
   SizeSpace <- SizeTriplesQ
